@@ -1918,3 +1918,167 @@ Proof.
     cbn in T1, M1. repeat split; [congruence|exact Hx3|].
     exists y. rewrite M1, Hm. auto.
 Qed.
+
+(* ------------------------------------------------------------------ *)
+(* No other entry point of Raft emits a MsgTimeoutNow (and none but [tick] and
+   [load_state] touches the control fields at all) *)
+
+Theorem tick_no_timeout_now r r' b : tick r = Ok (r', b) ->
+  sel MsgTimeoutNow (r_msgs r') = sel MsgTimeoutNow (r_msgs r).
+Proof.
+  assert (Hstep : forall r0 m r1 c, step r0 m = Ok (r1, c) ->
+            m_type m <> MsgAppendResponse -> m_type m <> MsgTransferLeader ->
+            sel MsgTimeoutNow (r_msgs r1) = sel MsgTimeoutNow (r_msgs r0)).
+  { intros r0 m r1 c K N1 N2. apply timeout_now_sources in K.
+    destruct K as [K|(_ & [K|K] & _)]; [exact K|contradiction|contradiction]. }
+  intros H. unfold tick in H.
+  assert (Hel : tick_election r = Ok (r', b) ->
+                sel MsgTimeoutNow (r_msgs r') = sel MsgTimeoutNow (r_msgs r)).
+  { clear H. unfold tick_election. intros H.
+    match type of H with (if ?c then _ else _) = _ => destruct c end;
+      [inversion H; reflexivity|].
+    inv_bind H. inversion H; subst; clear H. destruct x as [r1 c]. cbn [fst].
+    apply Hstep in Hx; [exact Hx|discriminate|discriminate]. }
+  destruct (r_state r); try (apply Hel; exact H). clear Hel.
+  unfold tick_heartbeat in H.
+  apply bind_ok in H. destruct H as ([ra hr] & HA & H).
+  assert (Ha : sel MsgTimeoutNow (r_msgs ra) = sel MsgTimeoutNow (r_msgs r)).
+  { match type of HA with (if ?c then _ else _) = _ => destruct c end;
+      [|inversion HA; reflexivity].
+    apply bind_ok in HA. destruct HA as ([r3 hr3] & HB & HA). inversion HA; subst; clear HA.
+    assert (H3 : sel MsgTimeoutNow (r_msgs r3) = sel MsgTimeoutNow (r_msgs r)).
+    { match type of HB with (if ?c then _ else _) = _ => destruct c end;
+        [|inversion HB; reflexivity].
+      apply bind_ok in HB. destruct HB as ([rz cz] & HC & HB). inversion HB; subst; clear HB.
+      cbn [fst]. apply Hstep in HC; [exact HC|discriminate|discriminate]. }
+    match goal with |- sel _ (r_msgs (if ?c then _ else _)) = _ => destruct c end; exact H3. }
+  destruct (negb (is_leader ra)); [inversion H; subst; exact Ha|].
+  match type of H with (if ?c then _ else _) = _ => destruct c end;
+    [|inversion H; subst; exact Ha].
+  apply bind_ok in H. destruct H as ([rz cz] & HD & H). inversion H; subst; clear H. cbn [fst].
+  apply Hstep in HD; [|discriminate|discriminate]. rewrite HD. exact Ha.
+Qed.
+
+Lemma on_persist_entries_cf r i t r' : on_persist_entries r i t = Ok r' -> cf MsgTimeoutNow r r'.
+Proof. intros H. unfold on_persist_entries in H. inv_ok H; cft_fwd; cf_solve. Qed.
+
+Lemma on_persist_snap_cf r i r' : on_persist_snap r i = Ok r' -> cf MsgTimeoutNow r r'.
+Proof. intros H. unfold on_persist_snap in H. inv_ok H; cf_solve. Qed.
+
+Lemma commit_apply_internal_cf r a s r' : commit_apply_internal r a s = Ok r' -> cf MsgTimeoutNow r r'.
+Proof.
+  intros H. unfold commit_apply_internal in H. inv_bind H.
+  match type of H with (if ?c then _ else _) = _ => destruct c end;
+    [|inversion H; subst; cf_solve].
+  inv_bind H. destruct x0 as [r1 ok]. destruct (negb ok); [discriminate|].
+  inversion H; subst; clear H. cft_fwd. cf_solve.
+Qed.
+
+Lemma ping_cf r r' : ping r = Ok r' -> cf MsgTimeoutNow r r'.
+Proof.
+  unfold ping. intros H. destruct (is_leader r); [cft_fwd; assumption|inversion H; apply cf_refl].
+Qed.
+
+Lemma request_snapshot_cf r r' c : request_snapshot r = Ok (r', c) -> cf MsgTimeoutNow r r'.
+Proof.
+  intros H. unfold request_snapshot in H.
+  destruct (is_leader r); [inversion H; apply cf_refl|].
+  destruct (r_leader_id r =? INVALID_ID); [inversion H; apply cf_refl|].
+  match type of H with (if ?c then _ else _) = _ => destruct c end; [inversion H; apply cf_refl|].
+  match type of H with (if ?c then _ else _) = _ => destruct c end; [inversion H; apply cf_refl|].
+  inv_bind H. destruct x; [|discriminate].
+  destruct (r_term r =? a); [|inversion H; apply cf_refl].
+  inv_bind H. inversion H; subst; clear H. cft_fwd. cf_solve.
+Qed.
+
+Lemma enable_group_commit_cf r e r' : enable_group_commit r e = Ok r' -> cf MsgTimeoutNow r r'.
+Proof.
+  intros H. unfold enable_group_commit in H.
+  match type of H with (if ?c then _ else _) = _ => destruct c end;
+    [|inversion H; subst; split; reflexivity].
+  inv_bind H. destruct x as [r1 b]. cbn [fst snd] in H.
+  apply maybe_commit_tn in Hx.
+  assert (K : cf MsgTimeoutNow r (r <| r_prs := r_prs r <| t_group_commit := e |> |>))
+    by (split; reflexivity).
+  destruct b.
+  - cft_fwd. eapply cf_trans; [exact K|]. eapply cf_trans; [exact Hx|exact H].
+  - inversion H; subst. eapply cf_trans; [exact K|exact Hx].
+Qed.
+
+Lemma assign_groups_conf ids : forall m m', assign_groups m ids = Ok m' -> True.
+Proof. auto. Qed.
+
+Lemma assign_commit_groups_cf r ids r' : assign_commit_groups r ids = Ok r' -> cf MsgTimeoutNow r r'.
+Proof.
+  intros H. unfold assign_commit_groups in H. inv_bind H.
+  assert (K : cf MsgTimeoutNow r (r <| r_prs := r_prs r <| t_progress := x |> |>))
+    by (split; reflexivity).
+  match type of H with (if ?c then _ else _) = _ => destruct c end;
+    [|inversion H; subst; exact K].
+  inv_bind H. destruct x0 as [r1 b]. cbn [fst snd] in H. apply maybe_commit_tn in Hx0.
+  destruct b.
+  - cft_fwd. eapply cf_trans; [exact K|]. eapply cf_trans; [exact Hx0|exact H].
+  - inversion H; subst. eapply cf_trans; [exact K|exact Hx0].
+Qed.
+
+Lemma adjust_max_inflight_msgs_cf r t c r' :
+  adjust_max_inflight_msgs r t c = Ok r' -> cf MsgTimeoutNow r r'.
+Proof. intros H. unfold adjust_max_inflight_msgs in H. inv_ok H; cf_solve. Qed.
+
+Lemma maybe_free_inflight_buffers_cf r : cf MsgTimeoutNow r (maybe_free_inflight_buffers r).
+Proof. split; reflexivity. Qed.
+
+Lemma set_max_apply_unpersisted_log_limit_cf r l :
+  cf MsgTimeoutNow r (set_max_apply_unpersisted_log_limit r l).
+Proof. split; reflexivity. Qed.
+
+Lemma reduce_uncommitted_size_cf r ents : cf MsgTimeoutNow r (reduce_uncommitted_size r ents).
+Proof.
+  unfold reduce_uncommitted_size. destruct (negb (is_leader r)); [apply cf_refl|].
+  match goal with |- cf _ _ (if ?c then _ else _) => destruct c end; [apply cf_refl|].
+  match goal with |- cf _ _ (if ?c then _ else _) => destruct c end; split; reflexivity.
+Qed.
+
+Lemma load_state_quiet r hs r' : load_state r hs = Ok r' ->
+  r_msgs r' = r_msgs r /\ r_lead_transferee r' = r_lead_transferee r /\
+  r_election_elapsed r' = r_election_elapsed r /\ r_state r' = r_state r /\ cfg r' = cfg r.
+Proof.
+  unfold load_state. intros H. match type of H with (if ?c then _ else _) = _ => destruct c end;
+    [discriminate|]. inversion H; subst. repeat split.
+Qed.
+
+(* apply_conf_change: no TimeoutNow; on a leader the timer is untouched unless the
+   transfer is cleared *)
+Theorem apply_conf_change_frame r cc r' ocs :
+  raft_apply_conf_change r cc = Ok (r', ocs) ->
+  sel MsgTimeoutNow (r_msgs r') = sel MsgTimeoutNow (r_msgs r) /\ cfg r' = cfg r /\
+  r_state r' = r_state r /\ r_election_elapsed r' = r_election_elapsed r /\
+  (r_lead_transferee r' = None \/ r_lead_transferee r' = r_lead_transferee r).
+Proof.
+  intros H. unfold raft_apply_conf_change in H.
+  match type of H with match ?d with _ => _ end = _ => destruct d as [[c' chs]|] end;
+    [|inversion H; subst; repeat split; auto].
+  inv_bind H. inversion H; subst; clear H. destruct x as [r1 cs1]. cbn [fst].
+  apply post_conf_change_shape_tn in Hx.
+  destruct Hx as [_ [[-> _]|(_ & _ & _ & r3 & [A1 A2] & ->)]].
+  - repeat split; auto.
+  - pose proof (ctl_cfg _ _ A2) as Hc. apply ctl_fields in A2.
+    destruct A2 as (B1 & B2 & B3 & _).
+    match type of B1 with _ = r_state ?r0 => change (r_state r0) with (r_state r) in B1 end.
+    match type of B2 with _ = r_lead_transferee ?r0 =>
+      change (r_lead_transferee r0) with (r_lead_transferee r) in B2 end.
+    match type of B3 with _ = r_election_elapsed ?r0 =>
+      change (r_election_elapsed r0) with (r_election_elapsed r) in B3 end.
+    match type of Hc with _ = cfg ?r0 => change (cfg r0) with (cfg r) in Hc end.
+    match type of A1 with _ = sel _ (r_msgs ?r0) => change (r_msgs r0) with (r_msgs r) in A1 end.
+    assert (Hp : sel MsgTimeoutNow (r_msgs (pcc_check r3)) = sel MsgTimeoutNow (r_msgs r3) /\
+                 cfg (pcc_check r3) = cfg r3 /\ r_state (pcc_check r3) = r_state r3 /\
+                 r_election_elapsed (pcc_check r3) = r_election_elapsed r3 /\
+                 (r_lead_transferee (pcc_check r3) = None \/
+                  r_lead_transferee (pcc_check r3) = r_lead_transferee r3)).
+    { unfold pcc_check. destruct (r_lead_transferee r3) eqn:E; [|repeat split; auto].
+      destruct (negb _); repeat split; auto. }
+    destruct Hp as (P1 & P2 & P3 & P4 & P5).
+    split; [congruence|]. split; [congruence|]. split; [congruence|]. split; [congruence|].
+    destruct P5 as [P5|P5]; [left; exact P5|right; congruence].
+Qed.
